@@ -622,6 +622,7 @@ class ASTCodeGenerator(object):
         self._write(')')
 
     # Yield(expr? value)
+    @with_parens
     def visit_Yield(self, node):
         self._write('yield')
         if getattr(node, 'value', None):
